@@ -18,7 +18,7 @@ from .model import Model, FuncInfo, ClassInfo, ModuleInfo
 from .regions import IV, UNIT
 from .values import (SymNum, ComplexVal, Maybe, Obj, ExcObj, ClassRef, BuiltinType, ModRef,
                      ExtRef, BoundMethod, NativeMethod, Closure, SuperProxy, HashVal,
-                     RegexObj, Builtin)
+                     RegexObj, Builtin, OneShot)
 
 sys.setrecursionlimit(max(sys.getrecursionlimit(), 20000))
 
@@ -232,6 +232,16 @@ class Interp:
             return SymNum(("c", math.inf), IV(math.inf, math.inf), math.inf)
         if dotted in ("typing.TYPE_CHECKING",):
             return False
+        if dotted == "math.tau":
+            return SymNum(("c", math.tau), IV.point(math.tau), math.tau)
+        if dotted.startswith("sys.float_info."):
+            import sys as _sys
+            v = getattr(_sys.float_info, dotted.rsplit(".", 1)[1], None)
+            if isinstance(v, (int, float)) and not isinstance(v, bool):
+                return SymNum.of(v) if isinstance(v, float) else v
+        if dotted == "sys.maxsize":
+            import sys as _sys
+            return _sys.maxsize
         return ExtRef(dotted)
 
     def lookup_name(self, name: str, env: Env):
@@ -494,7 +504,7 @@ class Interp:
 
     def e_GeneratorExp(self, node, env):
         # generators are materialised eagerly (laziness is checked structurally, C02.eager)
-        return self.e_ListComp(node, env)
+        return OneShot(self.e_ListComp(node, env))
 
     def e_SetComp(self, node, env):
         out = set()
@@ -544,6 +554,11 @@ class Interp:
 
     # ------------------------------------------------------------ iteration
     def iterate(self, v) -> list:
+        if isinstance(v, OneShot):
+            if v.used:
+                return []
+            v.used = True
+            return list(v)
         if isinstance(v, (list, tuple)):
             return list(v)
         if isinstance(v, str):
